@@ -303,6 +303,10 @@ def run(tree, rep, tier):
     r4(prog, rep)
     r5(tree, prog, rep)
     r6(tree, prog, rep)
+    # the leader's Manager learns of every selected connection only if nothing raises before connection_made() in
+    # connector_connection_made: the keep-alive timer must accept got_connection in whatever state a loss left it
+    from .C10 import timer_accepts_next_connection
+    timer_accepts_next_connection(tree, rep, "C11.R7")
 
 
 MUTANTS = [
